@@ -25,3 +25,59 @@ Proof.
     pose proof (Hp cur st H0) as Hs. destruct (step cur st) as [c1 s1] eqn:E. cbn in Hs.
     apply IH in H. lia.
 Qed.
+
+(* ---------- partition: the loop neither skips nor repeats source text ---------- *)
+(* [tiles a l b]: the spans of l are non-empty, start at a, each begins where the previous one ended, and end at b *)
+Fixpoint tiles (a : nat) (l : list (nat * nat)) (b : nat) : Prop :=
+  match l with
+  | nil => a = b
+  | cons (x, y) l' => x = a /\ a < y /\ tiles y l' b
+  end.
+
+Lemma tiles_app a l1 m l2 b : tiles a l1 m -> tiles m l2 b -> tiles a (l1 ++ l2) b.
+Proof.
+  revert a. induction l1 as [|[x y] l1 IH]; cbn; intros a H1 H2.
+  - subst. exact H2.
+  - destruct H1 as (Hx & Hy & Ht). repeat split; auto.
+Qed.
+
+Lemma tiles_le a l b : tiles a l b -> a <= b.
+Proof. revert a. induction l as [|[x y] l IH]; cbn; intros a H; [lia|]. destruct H as (_ & Hy & Ht). apply IH in Ht. lia. Qed.
+
+(* if every step appends spans that tile exactly the stretch of source the cursor moved over, the spans recorded
+   when the loop ends tile the whole stretch from the start: every position is covered by exactly one span *)
+Theorem gloop_partition {S : Type} (max : nat) (step : nat -> S -> nat * S) (spans : S -> list (nat * nat)) :
+  (forall cur st, cur < max -> exists new, spans (snd (step cur st)) = spans st ++ new /\ tiles cur new (fst (step cur st))) ->
+  forall fuel cur st cur' st' a, tiles a (spans st) cur -> gloop fuel max step cur st = Some (cur', st') ->
+  tiles a (spans st') cur'.
+Proof.
+  intros Hp. induction fuel as [|f IH]; intros cur st cur' st' a Ht H; cbn [gloop] in H.
+  - destruct (Nat.leb_spec max cur); [inversion H; subst; exact Ht|discriminate].
+  - destruct (Nat.leb_spec max cur); [inversion H; subst; exact Ht|].
+    destruct (Hp cur st H0) as (new & Hs & Hn). destruct (step cur st) as [c1 s1] eqn:E. cbn in Hs, Hn.
+    apply (IH c1 s1 cur' st' a); [|exact H]. rewrite Hs. eapply tiles_app; eassumption.
+Qed.
+
+(* tiling spans reassemble the source slice: nothing lost, nothing twice, order kept *)
+Definition cut {A} (s : list A) (a b : nat) : list A := firstn (b - a) (skipn a s).
+
+Lemma firstn_plus {A} n m : forall l : list A, firstn (n + m) l = firstn n l ++ firstn m (skipn n l).
+Proof. induction n as [|n IH]; intros l; cbn; [reflexivity|]. destruct l as [|x l]; cbn; [destruct m; reflexivity|]. f_equal. apply IH. Qed.
+
+Lemma skipn_plus {A} n m : forall l : list A, skipn n (skipn m l) = skipn (n + m) l.
+Proof. revert n. induction m as [|m IH]; intros n l; cbn. { rewrite Nat.add_0_r. reflexivity. }
+  destruct l as [|x l]. { cbn. rewrite !skipn_nil. reflexivity. } rewrite Nat.add_succ_r. cbn. apply IH. Qed.
+
+Lemma cut_app {A} (s : list A) a m b : a <= m -> m <= b -> cut s a m ++ cut s m b = cut s a b.
+Proof.
+  intros H1 H2. unfold cut. replace (b - a) with ((m - a) + (b - m)) by lia.
+  rewrite firstn_plus. f_equal. rewrite skipn_plus. replace (m - a + a) with m by lia. reflexivity.
+Qed.
+
+Theorem tiles_concat {A} (s : list A) l : forall a b, tiles a l b ->
+  concat (map (fun p => cut s (fst p) (snd p)) l) = cut s a b.
+Proof.
+  induction l as [|[x y] l IH]; cbn; intros a b H.
+  - subst. unfold cut. rewrite Nat.sub_diag. reflexivity.
+  - destruct H as (-> & Hy & Ht). rewrite (IH y b Ht). apply cut_app; [lia|]. apply (tiles_le _ _ _ Ht).
+Qed.
